@@ -69,18 +69,17 @@ def reUnindentor (s : Str) : Bool :=
   | none => false
   | some k => ((lskip s).drop k.length).contains ':'
 
-/-- `$` (no `re.M`): at the end, or before a newline that is the last character -/
-def endOk (r : Str) : Bool := r.isEmpty || r == ['\n']
-
-/-- what may follow the colon of `_re_indent`: `[ \t]*(?:#.*)?$`.  `[ \t]*` is greedy and the next item is `#`
-    or `$`, neither of which matches a blank: maximal run.  `.*` stops at the first newline, and `$` does not
-    match in front of any other character: maximal run again. -/
+/-- what may follow the colon of `_re_indent`: `\s*(?:#.*)?$` with `re.S` (since /repo e8c0e60; before:
+    `[ \t]*(?:#.*)?$` without it).  `\s*` is greedy; what follows it is `#`, after which `.*` runs to the end of the
+    string (`.` matches newlines now) where `$` holds, or `$` itself: the end, or – after giving one newline back –
+    the position before a final newline.  Either way: the rest is whitespace only, or its first non-whitespace
+    character is `#`. -/
 def tailOk (r : Str) : Bool :=
-  let r1 := r.dropWhile isBlank
-  endOk r1 || (r1.head? == some '#' && endOk (r1.tail.dropWhile (· != '\n')))
+  let r1 := r.dropWhile isSpace
+  r1.isEmpty || r1.head? == some '#'
 
-/-- `_re_indent = :[ \t]*(?:#.*)?$` (`search`): some colon is followed by blanks, an optional comment and the
-    end of the string -/
+/-- `_re_indent = :\s*(?:#.*)?$` (`search`, `re.S`): some colon is followed by whitespace, an optional comment
+    and the end of the string -/
 def reIndent : Str → Bool
   | [] => false
   | c :: cs => (c == ':' && tailOk cs) || reIndent cs
